@@ -148,7 +148,7 @@ def evaluate(case, wd):
     for k, v in enumerate(case["variants"]):
         job = dict(base_job, family=v["family"], steps=v["steps"])
         out, err = procs.run_job("vf.child_codegen", job, wd, f"{h}_v{k}", hashseed=v["hashseed"])
-        vdesc = {"steps": [s[:2] if s[0] != "compile" else ["compile", "<spec>", s[2]] for s in v["steps"]],  # compile-target steps are [kind, options] "hashseed": v["hashseed"], "family": v["family"]}
+        vdesc = {"steps": [s[:2] if s[0] != "compile" else ["compile", "<spec>", s[2]] for s in v["steps"]], "hashseed": v["hashseed"], "family": v["family"]}
         classes += [f"family:{v['family']}", f"steps:{len(v['steps'])}"] + [f"step:{s[0]}" for s in v["steps"]]
         if out is None:
             return Outcome("harness-error", case_id=h, classes=classes, what=err)
@@ -176,6 +176,36 @@ def evaluate(case, wd):
                    sample={"target": tclean, "variants": [{"steps": len(v["steps"]), "hashseed": v["hashseed"], "family": v["family"]} for v in case["variants"]]})
 
 
+MULTI_MESH_PROBE = {"kind": "form", "cell": "triangle", "gdim": 2, "cdeg": 1, "elements": [["el", "P", 1, {}], ["el", "P", 1, {"dc": True}]], "args": [1, 0],
+                    "coefs": [], "consts": [], "mesh2": [1],
+                    "integrals": [{"m": "dx", "id": None, "md": {}, "e": ["inner", ["grad", ["u"]], ["grad", ["v"]]]}]}
+
+
+def probe_multi_mesh(run_):
+    """Fixed probe for the listed finding C12:multi-mesh-id-digit-boundary (forms over two meshes are excluded from the generated targets)."""
+    with scratch("vf-c12-mm-") as wd:
+        base_job = {"mode": "codegen", "family": "first", "steps": [], "target": [MULTI_MESH_PROBE], "options": {}}
+        base, err = procs.run_job("vf.child_codegen", base_job, wd, "mm_base", hashseed=0)
+        if base is None or "error" in base:
+            run_.count("multi-mesh-probe:unavailable")
+            return
+        for k in (3, 9):
+            job = dict(base_job, family="after", steps=[["objects", k]])
+            out, err = procs.run_job("vf.child_codegen", job, wd, f"mm_{k}", hashseed=0)
+            run_.evaluations += 1
+            if out is None or "error" in out:
+                run_.count("multi-mesh-probe:child-error")
+                continue
+            if out["code"] != base["code"]:
+                which = 0 if out["code"][0] != base["code"][0] else 1
+                run_.fail(f"{PROP}:multi-mesh-id-digit-boundary", f"P1 stiffness form with test and trial function on two meshes, compiled after {k} unrelated meshes were "
+                          f"created (mesh ids {k},{k + 1} instead of 0,1): generated source differs: {first_diff(base['code'][which], out['code'][which])}",
+                          {"target": MULTI_MESH_PROBE, "variant": {"steps": [["objects", k]], "hashseed": 0, "family": "after"}, "language": "C", "options": {}},
+                          bucket=f"{PROP}:multi-mesh-id-digit-boundary")
+            else:
+                run_.count(f"multi-mesh-probe:identical-after-{k}-meshes")
+
+
 def shard(shard, nshards, n, nvariants, seed):
     res = ShardResult()
     with scratch(f"vf-c12-{shard}-") as wd:
@@ -185,11 +215,13 @@ def shard(shard, nshards, n, nvariants, seed):
 
 def run(tier: str) -> int:
     run_ = Run(PROP, tier, "exploration", RULE)
+    probe_multi_mesh(run_)
     n, nv = (3, 4) if tier == "quick" else (thorough(10), 8)
     for part in run_shards(shard, 16, n=n, nvariants=nv, seed=verif_seed()):
         run_.merge(part)
     run_.assumptions = [
         "PYTHONHASHSEED values and histories are sampled, not exhausted",
+        "forms whose function spaces live on two mesh objects are excluded from the generated targets (recorded finding C12:multi-mesh-id-digit-boundary, probed separately)",
         "the oracle is byte equality of compile_ufl_objects' output for namespace 'ns'",
     ]
     return run_.finish()
